@@ -61,6 +61,14 @@ def selfvalidate(prop, rep):
     rule instance) must make the check fire, every twin (behaviour-preserving rewrite) must leave it
     silent.  A failed self-validation means the checker is not to be believed: exit 2."""
     from selftest.variants import VARIANTS
+    # the engine first: the interpreter must agree with CPython on the differential snippet suite (a wrong answer there makes
+    # every model verdict unreliable)
+    import subprocess
+    p_ = subprocess.run([sys.executable, os.path.join(HERE, 'selftest', 'interp_selftest.py')], capture_output=True, text=True)
+    last_ = (p_.stdout.strip().splitlines() or [''])[-1]
+    rep.analysed['interpreter_selftest'] = last_
+    if p_.returncode != 0:
+        rep.error('self-validation failed: the interpreter disagrees with CPython on its snippet suite: %s' % last_)
     jobs = []
     for v in VARIANTS:
         props = v.prop if isinstance(v.prop, (tuple, list)) else (v.prop,)
